@@ -14,7 +14,8 @@ RULE = ('hypothesis: (i) generator lists of the seven structure classes R, C, R_
         'Oracle: Gram matrices (common norm, orthogonality), least-squares span tests in the appropriate real embedding, dimension count of the ambient structured space, structure '
         'of the outputs; soundness of certificates = a certificate must not be issued when a low-rank element was planted; support function lambda_max((e^{i t}A + h.c.)/2). '
         'Non-trivial = dependent generators or a structured class; planted cases with subspace dimension >= 2. Distinct = (class, m, n, span dim, extra) / (kind, dims, r, k, dim).'
-        ' Generators and matrices also in other memory layouts; planted rank-one elements also inside subspaces of real symmetric matrices.')
+        ' Generators and matrices also in other memory layouts; planted rank-one elements also inside subspaces of real symmetric matrices.'
+        ' Non-square real subspaces also handed to the detector as they are.')
 ASSUMPTIONS = ['certificates use absolute thresholds: the planted subspaces are handed over as orthonormal bases (unnormalised generators are outside the claim)',
                'completeness of the certificates is not claimed; the fraction of generic subspaces that are certified is recorded as a label only (non-vacuity)',
                'real antisymmetric matrix spaces are rejected by the code ("not implemented yet") and are outside the domain']
